@@ -369,6 +369,26 @@ def gen_burst_then_seq(r):
     return [I, T, M] + ["%d:%s" % (a, b) for a, b in ops]
 
 
+def gen_big_burst(r):
+    """many overlapping requests (more than any plausible internal bound on pooled sessions: 12-48) through gated dials:
+    every one of them gets its own new session, and none of these sessions -- each carries its request's stream -- may be
+    closed by the pool while the burst is in flight or right after it (seed C12-7: a size cap that evicts the oldest
+    pooled session on insertion); then a few completions and sequential requests"""
+    I, T, M = r.choice([10000, 30000]), r.choice([30000, 60000]), r.choice([0, 1, 2])
+    k = r.choice([12, 17, 18, 24, 33, 48])
+    t, ops = r.choice([7, 500]), []
+    for _ in range(k):
+        t = _avoid_ticks(t + r.choice([1, 3, 10]), I); ops.append((t, "a"))
+    for _ in range(k):
+        t = _avoid_ticks(t + r.choice([1, 3, 10]), I); ops.append((t, "c"))
+    for j in range(r.randint(0, 3)):
+        t = _avoid_ticks(t + r.choice([5, 50]), I); ops.append((t, "d%d" % r.randrange(k)))
+    for j in range(r.randint(1, 3)):
+        t = _avoid_ticks(t + r.choice([20, 300]), I); ops.append((t, "r"))
+    ops = with_ticks(I, ops, 0)
+    return [I, T, M] + ["%d:%s" % (a, b) for a, b in ops]
+
+
 def gen_dead_idle_then_quiet(r):
     """k overlapping requests (all complete, all streams finished): k sessions sit in the pool, none ever reused; some of the
     OLDER ones die while idle; then nothing happens for longer than the idle timeout. The reaper must keep min_idle HEALTHY
